@@ -340,7 +340,10 @@ class Facts:
         self.j = j
         self.config = j.get("config")
         self.features = j.get("features", [])
-        self.fns = [Fn(f, self) for f in j["fns"]]
+        self.all_fns = [Fn(f, self) for f in j["fns"]]
+        # helpers that were inlined into all their callers are not analysed on their own
+        self.fns = [f for f in self.all_fns if not f.j.get("absorbed")]
+        self.inlined = j.get("inlined", {})
         self.by_path = {}
         for f in self.fns:
             self.by_path.setdefault(f.path, f)
